@@ -261,4 +261,6 @@ def run(tier):
     lints.length_is_boolean(chk, ['src/ec/'])
     from .. import lints as _l
     _l.limb_split_consistent(chk, ['src/ec/'])
+    from .. import siblings as _sib
+    _sib.check(chk, ['src/ec/'], floor=8)
     return chk.finish()
